@@ -63,11 +63,11 @@ def main():
         """`c` was just built from EPSG `code`; if its pyproj object sits at an address that was (and maybe still
         is) in a key of the transformer cache while the object that owned the address is gone, the transformer
         returned now must nevertheless be for the new pair."""
-        t = tracked.get(id(c._crs))
+        t = tracked.get(id(c.proj))
         if t is None:
             return
         ref, other, osys, xy, as_src = t
-        if ref() is c._crs:
+        if ref() is c.proj:
             return  # same, still pinned object: nothing was recycled
         mine = pyproj.CRS.from_epsg(code)
         if as_src:
@@ -82,7 +82,7 @@ def main():
                         "b": ["sys", osys] if as_src else ["int", code], "sa": -1, "sb": -1, "xy": xy,
                         "recycled_id": True, "got": [np.asarray(g).tolist() for g in got],
                         "want": [np.asarray(w).tolist() for w in want]})
-        del tracked[id(c._crs)]
+        del tracked[id(c.proj)]
 
     def src_points(s):
         # probe points expressed in system s
@@ -96,11 +96,11 @@ def main():
     _te = {}
 
     def te(p):
-        """pyproj's to_epsg(), memoised per object (identifying a code-less system searches the whole database)"""
-        k = id(p)
+        """pyproj's to_epsg(), memoised per definition (identifying a code-less system searches the whole database)"""
+        k = p.to_wkt()
         if k not in _te:
-            _te[k] = (p, p.to_epsg())
-        return _te[k][1]
+            _te[k] = p.to_epsg()
+        return _te[k]
 
     def want_epsg(spec):
         """pyproj's own answer for the spec (object built here, never seen by odc-geo)"""
@@ -121,9 +121,20 @@ def main():
         vsys[v] = sysn
         vlazy[v] = False
         vspec[v] = spec
-        records.append({"k": "mk", "spec": spec, "str": nm(str(c)), "tok": nm(c.__dask_tokenize__()[1]),
-                        "tag": c.__dask_tokenize__()[0], "hash_is_str": hash(c) == hash(str(c))})
+        # hash and token are functions of the string form: every live instance printing the same has the same
+        twins = [o for o in V.values() if o is not c and str(o) == str(c)]
+        records.append({"k": "mk", "spec": spec, "str": nm(str(c)), "twins": len(twins),
+                        "hash_follows_str": all(hash(o) == hash(c) for o in twins),
+                        "tok_follows_str": all(o.__dask_tokenize__() == c.__dask_tokenize__() for o in twins)})
         return "s:" + nm(str(c))
+
+    def build(x, via_norm):
+        """CRS(x), or the same through the argument normaliser every value type uses (norm_crs / norm_crs_or_error)"""
+        if not via_norm:
+            return CRS(x)
+        c = C.norm_crs(x)
+        assert isinstance(c, CRS), c
+        return c
 
     for op in req["ops"]:
         kind = op[0]
@@ -139,8 +150,8 @@ def main():
                 psys[pv] = (sysn, ["pyproj-epsg", n])
                 obs.append("-")
             elif kind == "mi":
-                _, v, n, sysn = op
-                obs.append(made(v, CRS(n), sysn, ["int", n]))
+                _, v, n, sysn = op[:4]
+                obs.append(made(v, build(n, len(op) > 4), sysn, ["int", n]))
             elif kind == "bk":
                 # bulk: many distinct cheap specs through one variable (cache capacity / id recycling probe)
                 _, v, codes = op
@@ -157,16 +168,21 @@ def main():
                     c = None
                 continue
             elif kind == "ms":
-                _, v, name, sysn = op
-                obs.append(made(v, CRS(texts[name]), sysn, ["str", name]))
+                _, v, name, sysn = op[:4]
+                obs.append(made(v, build(texts[name], len(op) > 4), sysn, ["str", name]))
             elif kind == "mp":
-                _, v, pv = op
-                obs.append(made(v, CRS(P[pv]), psys[pv][0], psys[pv][1]))
+                _, v, pv = op[:3]
+                obs.append(made(v, build(P[pv], len(op) > 3), psys[pv][0], psys[pv][1]))
             elif kind == "md":
-                _, v, name, sysn = op
-                obs.append(made(v, CRS(dicts[name]), sysn, ["dict", name]))
+                _, v, name, sysn = op[:4]
+                obs.append(made(v, build(dicts[name], len(op) > 4), sysn, ["dict", name]))
             elif kind == "mc":
-                _, v, w = op
+                _, v, w = op[:3]
+                if len(op) > 3:
+                    # through norm_crs: a CRS instance is handed back as is (the model's NormPlan.same)
+                    same = lambda r: r is V[w] or (isinstance(r, CRS) and r == V[w] and str(r) == str(V[w]))  # noqa: E731
+                    records.append({"k": "norm-same", "ok": same(C.norm_crs(V[w])) and same(C.norm_crs_or_error(V[w])),
+                                    "spec": vspec[w]})
                 c = CRS(V[w])
                 V[v] = c
                 vsys[v], vlazy[v], vspec[v] = vsys[w], vlazy[w], vspec[w]
@@ -197,8 +213,8 @@ def main():
                 _, a, b, xy = op
                 f = V[a].transformer_to_crs(V[b], always_xy=xy)
                 sa, sb = vsys[a], vsys[b]
-                tracked[id(V[a]._crs)] = (weakref.ref(V[a]._crs), V[b], sb, xy, True)
-                tracked[id(V[b]._crs)] = (weakref.ref(V[b]._crs), V[a], sa, xy, False)
+                tracked[id(V[a].proj)] = (weakref.ref(V[a].proj), V[b], sb, xy, True)
+                tracked[id(V[b].proj)] = (weakref.ref(V[b].proj), V[a], sa, xy, False)
                 x, y = src_points(sa)
                 if not xy:
                     # native axis order of the source
@@ -214,7 +230,8 @@ def main():
                 obs.append(f"t:{sa}>{sb}" if ok else "t:BAD")
             elif kind == "ep":
                 v = op[1]
-                was_unset = V[v]._epsg == 0
+                # (private lazy field; when it is not there the instance is conservatively taken as lazily filled)
+                was_unset = getattr(V[v], "_epsg", 0) == 0
                 e = V[v].epsg
                 records.append({"k": "epsg", "got": e, "want": want_epsg(vspec[v]), "spec": vspec[v]})
                 if was_unset:
@@ -232,7 +249,7 @@ def main():
                     obs.append("s:" + nm(str(c)))
                     obs.append("T" if r else "F")
                     records.append({"k": "eq", "r": r, "r_rev": r_rev, "sa": vsys[v], "sb": sysn,
-                                    "lazy": bool(vlazy[v]), "epsg_same": te(V[v]._crs) == te(c._crs), "code": te(c._crs),
+                                    "lazy": bool(vlazy[v]), "epsg_same": te(V[v].proj) == te(c.proj), "code": te(c.proj),
                                     "hash_same": hash(V[v]) == hash(c), "str_same": str(V[v]) == str(c),
                                     "ne_consistent": bool(V[v] != raw) == (not r), "a": vspec[v], "b": [skind, x]})
                 except Exception as e:  # pylint: disable=broad-except
@@ -245,7 +262,7 @@ def main():
                 r2 = bool(V[b] == V[a])
                 records.append({"k": "eq", "r": r, "r_rev": r2, "sa": vsys[a], "sb": vsys[b],
                                 "lazy": bool(vlazy[a] or vlazy[b]),
-                                "epsg_same": te(V[a]._crs) == te(V[b]._crs), "code": te(V[a]._crs),
+                                "epsg_same": te(V[a].proj) == te(V[b].proj), "code": te(V[a].proj),
                                 "hash_same": hash(V[a]) == hash(V[b]), "str_same": str(V[a]) == str(V[b]),
                                 "ne_consistent": bool(V[a] != V[b]) == (not r),
                                 "a": vspec[a], "b": vspec[b]})
@@ -262,11 +279,18 @@ def main():
     names = sorted(V)
     M = [[bool(V[a] == V[b]) for b in names] for a in names]
     records.append({"k": "final", "names": names, "M": M, "sys": [vsys[n] for n in names],
-                    "lazy": [vlazy[n] and te(V[n]._crs) is not None for n in names], "spec": [vspec[n] for n in names],
+                    "lazy": [vlazy[n] and te(V[n].proj) is not None for n in names], "spec": [vspec[n] for n in names],
                     "str": [nm(str(V[n])) for n in names],
                     "hash_eq": [[hash(V[a]) == hash(V[b]) for b in names] for a in names]})
-    json.dump({"obs": obs, "cache": len(C._crs_cache), "tcache": len(C._make_crs_transform.cache),
-               "records": records}, sys.stdout)
+    def size_of(x):
+        try:
+            return len(x)
+        except TypeError:
+            return None
+
+    tr_fn = getattr(C, "_make_crs_transform", None)
+    json.dump({"obs": obs, "cache": size_of(getattr(C, "_crs_cache", None)),
+               "tcache": size_of(getattr(tr_fn, "cache", None)), "records": records}, sys.stdout)
 
 
 if __name__ == "__main__":
